@@ -401,6 +401,7 @@ def load(repo):
             raise AnalysisError('%s: declaration %r not found by clang' % (HEADER, need))
     _expand_value_helpers(decls)
     _inline_record_locals(decls)
+    _counted_while_loops(decls)
     try:
         os.makedirs(cdir, exist_ok=True)
         import sys
@@ -464,6 +465,99 @@ def _blank(kind, **kw):
     for k, v in kw.items():
         setattr(n, k, v)
     return n
+
+
+def _counted_while_loops(decls):
+    """A search loop written with a counter of its own --
+
+        unsigned step = 0;
+        while (C) { if (++step >= B) break; BODY }        (or `step++ >= B`, `step >= B` with `++step;` as the next statement)
+
+    -- is the for loop `for (unsigned step = S; C && step < B; ++step) BODY` with S = 1 for the pre-increment test (the
+    first iteration already compares 1 with the bound) and S = 0 otherwise, `<=` for a `>` test.  Only when the counter is
+    declared by the statement just before the loop with a literal start, is not written anywhere else, and (for the forms
+    where the body would see another value than in the for loop) is not read in BODY.  The rules for the loop guard then
+    judge the budget as written: a pre-increment test against `>= max_step` leaves max_step - 1 steps."""
+    ps = decls.get('parse_sentence')
+    if ps is None:
+        return
+    bodies = [k for k in ps.kids if k.kind == 'CompoundStmt']
+    if not bodies:
+        return
+    top = bodies[0]
+    for i, st in enumerate(list(top.kids)):
+        if st.kind != 'WhileStmt' or i == 0 or len(st.kids) != 2 or st.kids[1].kind != 'CompoundStmt' or not st.kids[1].kids:
+            continue
+        prev = top.kids[i - 1]
+        if prev.kind != 'DeclStmt' or len(prev.kids) != 1 or prev.kids[0].kind != 'VarDecl':
+            continue
+        vd = prev.kids[0]
+        lits = [x for x in vd.walk() if x.kind == 'IntegerLiteral']
+        if len(lits) != 1 or 'int' not in (vd.type or '') and 'size_t' not in (vd.type or ''):
+            continue
+        cond, body = st.kids
+        first = body.kids[0]
+        if first.kind != 'IfStmt' or len(first.kids) != 2:
+            continue
+        then = first.kids[1]
+        if not (then.kind == 'BreakStmt' or (then.kind == 'CompoundStmt' and len(then.kids) == 1 and then.kids[0].kind == 'BreakStmt')):
+            continue
+        test = strip(first.kids[0])
+        if test.kind != 'BinaryOperator' or test.op not in ('>=', '>'):
+            continue
+        lhs, rhs = strip(test.kids[0]), test.kids[1]
+        if any(x.kind == 'DeclRefExpr' and x.ref == vd.name for x in rhs.walk()):
+            continue
+        form = None
+        rest = body.kids[1:]
+        if lhs.kind == 'UnaryOperator' and lhs.op == '++' and strip(lhs.kids[0]).kind == 'DeclRefExpr' and strip(lhs.kids[0]).ref == vd.name:
+            form = 'post' if lhs.is_postfix else 'pre'
+        elif lhs.kind == 'DeclRefExpr' and lhs.ref == vd.name and rest:
+            nx = strip(rest[0])
+            if nx.kind == 'UnaryOperator' and nx.op == '++' and strip(nx.kids[0]).kind == 'DeclRefExpr' and strip(nx.kids[0]).ref == vd.name:
+                form = 'sep'
+                rest = rest[1:]
+        if form is None:
+            continue
+        uses = [x for r_ in rest for x in r_.walk() if x.kind == 'DeclRefExpr' and x.ref == vd.name]
+        uses += [x for x in cond.walk() if x.kind == 'DeclRefExpr' and x.ref == vd.name]
+        after = [x for later in top.kids[i + 1:] for x in later.walk() if x.kind == 'DeclRefExpr' and x.ref == vd.name]
+        writes = [x for x in uses if x.parent is not None and x.parent.kind in ('UnaryOperator', 'CompoundAssignOperator') or
+                  (x.parent is not None and x.parent.kind == 'BinaryOperator' and x.parent.op == '=' and x.parent.kids[0] is x)]
+        if writes or after or (form != 'pre' and uses):
+            continue
+        # the for statement
+        init = clone(prev)
+        if form == 'pre':
+            for x in init.walk():
+                if x.kind == 'IntegerLiteral':
+                    try:
+                        x.value = str(int(x.value) + 1)
+                    except (TypeError, ValueError):
+                        init = None
+        if init is None:
+            continue
+        ref = clone(strip(lhs.kids[0]) if form in ('pre', 'post') else lhs)
+        budget = _blank('BinaryOperator', op='<' if test.op == '>=' else '<=', type='bool', line=first.line)
+        budget.kids = [ref, clone(rhs)]
+        conj = _blank('BinaryOperator', op='&&', type='bool', line=st.line)
+        conj.kids = [budget, clone(cond)]
+        inc = _blank('UnaryOperator', op='++', is_postfix=False, line=first.line)
+        inc.kids = [clone(ref)]
+        nb = _blank('CompoundStmt', line=body.line)
+        nb.kids = list(rest)
+        loop = _blank('ForStmt', line=st.line)
+        loop.kids = [init, _blank('Null'), conj, inc, nb]
+
+        def adopt(n, parent):
+            n.parent = parent
+            for k in n.kids:
+                adopt(k, n)
+        adopt(loop, top)
+        top.kids[i] = loop
+        # the declaration now lives in the for statement
+        top.kids[i - 1] = _blank('NullStmt', line=prev.line)
+        top.kids[i - 1].parent = top
 
 
 _CORE_RECORDS = ('chart', 'matrix', 'cell_item', 'config', 'cell', 'combinator_result')
